@@ -441,13 +441,14 @@ theorem executeCycle_l1i {app : App} {s s2 : State} {out : EuOut}
 
 /-! ### the write unit and the end of the run never panic -/
 
-theorem finish_ok {s : State} {a : Arch} (hk : Halt) (hb : Back s a) : ∃ s', finish s hk = .ok (s', .done hk) := by
+theorem finish_ok {s : State} {a : Arch} (hk : Halt) (hb : Back s a) :
+    ∃ s', finish s hk = .ok (s', .done hk) ∧ s'.mmu.l1d.lines.length ≤ 16 := by
   have hb' : BackRel s.ctx s.pwmi s.writeBus.inside s.mmu.l1d s.eu.storeID a := hb
   obtain ⟨F0, hcoh, _⟩ := hb'.coh
   have hfl := Proofs.Mmu.flush_ok hcfg hL hb'.dwf hcoh
   unfold finish
   simp only [hfl, bind, Except.bind, pure, Except.pure]
-  exact ⟨_, rfl⟩
+  exact ⟨_, rfl, hb'.dwf.count⟩
 
 theorem writeCycle_live {s : State} {a : Arch} (hb : Back s a)
     (hw : s.wu.pendingMemoryWrite = true → 1 ≤ s.wu.cycles) :
@@ -521,12 +522,19 @@ theorem decodeCycle_live {app : App} (s : State) (hd : ∀ pc ∈ s.decodeBus.in
 
 /-! ### one tick, total -/
 
-/-- what a tick guarantees for liveness, by its outcome -/
+/-- the state right after an instruction has been executed (and the initial state): the execute unit is idle -/
+def Fresh (s : State) : Prop :=
+  s.mode ≠ .drainRet ∧ (s.mode = .normal → s.eu.processing = false ∧ s.eu.pendingMemoryRead = false)
+
+/-- what a tick guarantees for liveness, by its outcome (after a regular end of the run L1D holds at most its 16
+lines: the cost of the final `mmu.flush()`) -/
 def LivePost (app : App) (s : State) (a : Arch) (s' : State) : Event → Prop
   | .running => (Rel app s' a ∧ Live app s' ∧ phi app s' < phi app s) ∨
-      (∃ a1 c, stepArch dc app a = .next a1 c ∧ Rel app s' a1 ∧ Live app s')
+      (∃ a1 c, stepArch dc app a = .next a1 c ∧ Rel app s' a1 ∧ Live app s' ∧ Fresh s')
   | .done (.panic _) => False
-  | .done _ => True
+  | .done .err => True
+  | .done .ret => (∃ c, stepArch dc app a = .halt .ret c) ∧ s'.mmu.l1d.lines.length ≤ 16
+  | .done .offEnd => s'.mmu.l1d.lines.length ≤ 16
 
 theorem bus_get_empty {α} (b : SimpleBus α) (h1 : b.current = none) (h2 : b.pending = none) :
     b.get.2.current = none ∧ b.get.2.pending = none := by
@@ -737,8 +745,8 @@ theorem cycleM_live_normal {app : App} {s : State} {a : Arch} (hsmall : app.inst
       simp only [h4, bind, Except.bind]
       by_cases hic : isComplete s4 = true
       · simp only [hic, if_true]
-        obtain ⟨s', hf⟩ := finish_ok .offEnd hb4
-        exact ⟨s', .done .offEnd, hf, trivial⟩
+        obtain ⟨s', hf, hlines⟩ := finish_ok .offEnd hb4
+        exact ⟨s', .done .offEnd, hf, hlines⟩
       · simp only [hic, Bool.false_eq_true, if_false, pure, Except.pure]
         refine ⟨s4, .running, rfl, Or.inl ⟨⟨hb4, by rw [hmode4]; exact hn4⟩, hlive4, ?_⟩⟩
         rw [hphi4, hphi0]
@@ -761,10 +769,11 @@ theorem cycleM_live_normal {app : App} {s : State} {a : Arch} (hsmall : app.inst
       simp only [h4, bind, Except.bind]
       by_cases hic : isComplete s4 = true
       · simp only [hic, if_true]
-        obtain ⟨s', hf⟩ := finish_ok .offEnd hb4
-        exact ⟨s', .done .offEnd, hf, trivial⟩
+        obtain ⟨s', hf, hlines⟩ := finish_ok .offEnd hb4
+        exact ⟨s', .done .offEnd, hf, hlines⟩
       · simp only [hic, Bool.false_eq_true, if_false, pure, Except.pure]
-        exact ⟨s4, .running, rfl, Or.inr ⟨a', c, hstep, ⟨hb4, by rw [hmode4]; exact hn4⟩, hlive4⟩⟩
+        exact ⟨s4, .running, rfl, Or.inr ⟨a', c, hstep, ⟨hb4, by rw [hmode4]; exact hn4⟩, hlive4,
+          ⟨fun hx => (by rw [hmode4] at hx; cases hx), fun _ => by rw [g_eu]; exact ⟨hproc3, hpend3⟩⟩⟩⟩
   | ret =>
     obtain ⟨hret, hb3, hwb3⟩ := hpost
     obtain ⟨s4, h4, hw4, hWle, _, _⟩ := writeCycle_live hb3 (by rw [hwu3]; exact hlv.wuCyc)
@@ -799,8 +808,8 @@ theorem cycleM_live_normal {app : App} {s : State} {a : Arch} (hsmall : app.inst
         omega
     · have hdc' : drainCond s4 = false := by simpa using hdc
       simp only [hdc', Bool.false_eq_true, if_false]
-      obtain ⟨s', hf⟩ := finish_ok .ret hb4
-      exact ⟨s', .done .ret, hf, trivial⟩
+      obtain ⟨s', hf, hlines⟩ := finish_ok .ret hb4
+      exact ⟨s', .done .ret, hf, hret, hlines⟩
   | flush pc =>
     obtain ⟨a', c, hstep, hpc, hb3, hproc3, hpend3, hmem3⟩ := hpost
     obtain ⟨s4, h4, hw4, _, _, _⟩ := writeCycle_live hb3 (by rw [hwu3]; exact hlv.wuCyc)
@@ -809,7 +818,7 @@ theorem cycleM_live_normal {app : App} {s : State} {a : Arch} (hsmall : app.inst
     simp only [h4, bind, Except.bind]
     by_cases hdc : drainCond s4 = true
     · simp only [hdc, if_true, pure, Except.pure]
-      refine ⟨{ s4 with mode := .drainFlush pc }, .running, rfl, Or.inr ⟨a', c, hstep, ⟨hb4, ?_⟩, ?_⟩⟩
+      refine ⟨{ s4 with mode := .drainFlush pc }, .running, rfl, Or.inr ⟨a', c, hstep, ⟨hb4, ?_⟩, ?_, ⟨fun hx => (nomatch hx), fun hx => (nomatch hx)⟩⟩⟩
       · show a'.pc = pc ∧ s4.eu.processing = false ∧ s4.eu.pendingMemoryRead = false ∧ s4.eu.memory = none
         rw [g_eu]; exact ⟨hpc, hproc3, hpend3, hmem3⟩
       · exact { iwf := (by show Proofs.Mvp3.IWf 64 s4.mmu.l1i; rw [g_mmu]; exact hiwf3),
@@ -823,7 +832,9 @@ theorem cycleM_live_normal {app : App} {s : State} {a : Arch} (hsmall : app.inst
       obtain ⟨hbf, hnf'⟩ := flushAll_rel (app := app) hb4 (drainCond_false hdc') hpc (by rw [g_eu]; exact hproc3)
         (by rw [g_eu]; exact hpend3) (by rw [g_eu]; exact hmem3)
       have hmodef : (flushAll s4 pc).mode = .normal := by show s4.mode = _; rw [hm4]; exact hmode3
-      refine ⟨flushAll s4 pc, .running, rfl, Or.inr ⟨a', c, hstep, ⟨hbf, by rw [hmodef]; exact hnf'⟩, ?_⟩⟩
+      refine ⟨flushAll s4 pc, .running, rfl, Or.inr ⟨a', c, hstep, ⟨hbf, by rw [hmodef]; exact hnf'⟩, ?_,
+        ⟨fun hx => (by rw [hmodef] at hx; cases hx),
+         fun _ => (by show s4.eu.processing = false ∧ s4.eu.pendingMemoryRead = false; rw [g_eu]; exact ⟨hproc3, hpend3⟩)⟩⟩⟩
       exact { iwf := (by show Proofs.Mvp3.IWf 64 s4.mmu.l1i; rw [g_mmu]; exact hiwf3),
               fuRem := fun hx => (by simp [flushAll, FetchUnit.flush] at hx), wuCyc := hw4,
               euRem := fun _ hx => (by
@@ -861,8 +872,8 @@ theorem cycleM_live_drainRet {app : App} {s : State} {a : Arch} (hm : s.mode = .
     · unfold phi; rw [hmode4, hm]; exact hWlt hdc0
   · have hdc' : drainCond s4 = false := by simpa using hdc
     simp only [hdc', Bool.false_eq_true, if_false]
-    obtain ⟨s', hf⟩ := finish_ok .ret hb4
-    exact ⟨s', .done .ret, hf, trivial⟩
+    obtain ⟨s', hf, hlines⟩ := finish_ok .ret hb4
+    exact ⟨s', .done .ret, hf, hret, hlines⟩
 
 theorem fuW_le (app : App) (fu : FetchUnit) (hp : fu.processing = false) : fuW app fu ≤ 3 + Gen.Latency.MemoryAccess.toNat := by
   unfold fuW
